@@ -167,32 +167,56 @@ def _value_class(r: dict[str, Any]) -> str:
     return V.category(r)
 
 
-def _offending_leaf(r: dict[str, Any], assertion: Any) -> str:
-    """Class of the value the assertion is about (a container is named by its most exotic leaf)."""
+def _live_class(obj: Any) -> str:
+    """Class of a live asserted value; a container is named by its most exotic leaf (root-cause bucket, no values)."""
+    import enum
+    import math
+
     classes: list[str] = []
 
-    def walk(x: dict[str, Any]) -> None:
-        if x["k"] == "dict":
-            for a, b in x["items"]:
-                walk(a)
-                walk(b)
-        elif x["k"] in ("list", "tuple", "set", "frozenset"):
-            for y in x["items"]:
-                walk(y)
-        elif x["k"] == "sut" and x["what"] in ("pair", "holder"):
-            for key in ("first", "second", "payload"):
-                if key in x:
-                    walk(x[key])
-        else:
-            classes.append(_value_class(x))
+    def leaf(x: Any) -> str:
+        if isinstance(x, enum.Enum):
+            cls = type(x)
+            where = ("toplevel" if cls.__module__ == SUT and "." not in cls.__qualname__ and not cls.__name__.startswith("_") else
+                     "nested" if cls.__module__ == SUT and "." in cls.__qualname__ else
+                     "private" if cls.__module__ == SUT else
+                     "foreign-public" if cls.__name__ == "HTTPStatus" else "foreign-unimported")
+            mixin = "+int" if isinstance(x, int) else ("+str" if isinstance(x, str) else "")
+            named = "" if isinstance(x.name, str) and x.name.isidentifier() else ":pseudo-member"
+            return f"enum:{where}{mixin}{named}"
+        if isinstance(x, float):
+            return "float.nan" if x != x else ("float.inf" if math.isinf(x) else ("float.-0" if x == 0 and math.copysign(1, x) < 0 else "float"))
+        if isinstance(x, complex):
+            return "complex.nan" if x != x else "complex"
+        return type(x).__name__
 
-    walk(r)
-    rank = ["enum:", "complex", "float.nan", "float.-0", "float.inf", "float", "sut:", "int>", "str", "bytes"]
-    for prefix in rank:
-        for c in classes:
-            if c.startswith(prefix):
-                return c
-    return classes[0] if classes else r["k"]
+    def walk(x: Any) -> None:
+        if type(x) is dict:
+            for k, v in x.items():
+                walk(k)
+                walk(v)
+        elif type(x) in (list, tuple, set, frozenset):
+            for y in x:
+                walk(y)
+        else:
+            classes.append(leaf(x))
+
+    walk(obj)
+    for prefix in ("enum:", "complex", "float.", "float"):
+        hits = sorted(c for c in classes if c.startswith(prefix))
+        if hits:
+            return hits[0]
+    return classes[0] if classes else type(obj).__name__
+
+
+def _type_class(assertion: Any) -> str:
+    if assertion.module == "builtins":
+        import builtins
+
+        return "builtin-name" if hasattr(builtins, assertion.qualname) else "builtins-module-type-without-builtin-name"
+    if assertion.module == SUT:
+        return "sut-local-class" if "<locals>" in assertion.qualname else ("sut-nested-class" if "." in assertion.qualname else "sut-class")
+    return "foreign-type"
 
 
 def evaluate(case: dict[str, Any]) -> Outcome:
@@ -227,7 +251,9 @@ def evaluate(case: dict[str, Any]) -> Outcome:
         executed = 0
         for assertion in assertions:
             kind = type(assertion).__name__
-            leaf = _offending_leaf(recipe, assertion) if isinstance(assertion, (ass.ObjectAssertion, ass.FloatAssertion)) else vclass
+            leaf = (_live_class(assertion.object) if isinstance(assertion, ass.ObjectAssertion) else
+                    _live_class(assertion.value) if isinstance(assertion, ass.FloatAssertion) else
+                    _type_class(assertion) if isinstance(assertion, (ass.IsInstanceAssertion, ass.TypeNameAssertion)) else "-")
             out.labels.append(f"assertion:{kind}")
             try:
                 node = a2a.assertion_to_cst(assertion)
